@@ -343,6 +343,10 @@ class FrontEnd:
         except (Unfoldable, Raised):
             d["source_file_path"] = "?"
         try:
+            d["root_path"] = str(self._prop(t, "source_file_path_to_root"))
+        except (Unfoldable, Raised):
+            d["root_path"] = "?"
+        try:
             d["doc"] = self._prop(t, "doc")
         except (Unfoldable, Raised):
             d["doc"] = "?"
@@ -388,7 +392,8 @@ class FrontEnd:
         if entry == "read_namespace":
             args: List[Any] = [APath(j["root"]), [APath(x) for x in j.get("lookup", [])]]
         else:
-            args = [[APath(x) if j.get("as_paths", True) else x for x in j["targets"]], [APath(x) for x in j.get("roots", [])], [APath(x) for x in j.get("lookup", [])]]
+            as_p = lambda x: APath(x) if j.get("as_paths", True) else x  # noqa: E731
+            args = [[as_p(x) for x in j["targets"]], [as_p(x) for x in j.get("roots", [])], [as_p(x) for x in j.get("lookup", [])]]
         if h is not None:
             args.append(h)
         out = self.read(j["files"], entry=entry, args=args, kwargs=dict(j.get("kwargs", {})), cwd=j.get("cwd"))
